@@ -591,7 +591,39 @@ func runC08IfaceTwin(c *CaseCtx, r *rand.Rand) (res CaseResult) {
 	}
 	// the redefined function called as the Go function it is, with a nil
 	// interface value in its declared input: a value was given for every
-	// declared input, so it does not fail for lack of an argument
+	// declared input, so it does not fail for lack of an argument (checked
+	// on a second target whose other parameter does NOT implement I, so that
+	// nothing else can stand in for the interface value)
+	func() {
+		spec2 := FuncSpec{In: []Label{{Type: 3}, {Name: "log", Type: I}}, InForm: 1 + r.Intn(2), OutForm: FormPos}
+		if r.Intn(2) == 0 {
+			spec2.In[1].Name = ""
+		}
+		tg2, err := w.Build(-2, spec2, r)
+		if err != nil {
+			return
+		}
+		o2 := DoRedefine(w, tg2.Func, []am.Arg{InputArg(Label{Type: 3}, w.FreshInput(-1, 5, Label{Type: 3}))})
+		if o2.Func == nil || o2.Err != nil {
+			return
+		}
+		defer func() {
+			if p := recover(); p != nil {
+				res.violate("C06", "panic/redefined-call-"+crashKey(fmt.Sprint(p)), fmt.Sprintf("calling the redefined function directly panicked: %v", p), det)
+			}
+		}()
+		fv := reflect.ValueOf(o2.Func.Func())
+		if fv.Kind() == reflect.Func && fv.Type().NumIn() == 1 {
+			outs := fv.Call([]reflect.Value{reflect.New(fv.Type().In(0)).Elem()})
+			res.Evals++
+			if n := len(outs); n > 0 {
+				if e, _ := outs[n-1].Interface().(error); e != nil {
+					res.violate("C08", "redefined-call-fails/nil-interface-input", "the redefined function, called with a nil interface value as its only declared input, failed: "+firstLine(e.Error()), map[string]interface{}{"target": spec2.String()})
+				}
+			}
+			res.obs("direct_calls_with_a_nil_interface_input", 1)
+		}
+	}()
 	func() {
 		defer func() {
 			if p := recover(); p != nil {
